@@ -61,15 +61,16 @@ pub fn gen_impl_trait_into(
     inner_type: impl Into<InnerType>,
 ) -> TokenStream {
     let inner_type: InnerType = inner_type.into();
+    let generics_without_bounds = strip_trait_bounds_on_generics(generics);
 
     // NOTE: We're getting blank implementation of
     //     Into<Inner> for Type
     // by implementing
     //     From<Type> for Inner
     quote! {
-        impl #generics ::core::convert::From<#type_name #generics> for #inner_type {
+        impl #generics ::core::convert::From<#type_name #generics_without_bounds> for #inner_type {
             #[inline]
-            fn from(value: #type_name #generics) -> Self {
+            fn from(value: #type_name #generics_without_bounds) -> Self {
                 value.into_inner()
             }
         }
